@@ -32,7 +32,7 @@ type StandardClass struct {
 	pkg             *slip.Package
 	precedence      []slip.Symbol
 	defaultInitArgs map[string]slip.Object
-	initArgs        map[string]*SlotDef // map with keys of initargs
+	initArgs        map[string][]*SlotDef // map with keys of initargs
 	initForms       map[string]*SlotDef
 	methods         map[string]*slip.Method
 	baseClass       slip.Symbol
@@ -385,14 +385,12 @@ func (c *StandardClass) mergeSupers() bool {
 		}
 		m.Combinations = append(m.Combinations, im.Combinations...)
 	}
-	c.initArgs = map[string]*SlotDef{}
+	c.initArgs = map[string][]*SlotDef{}
 	c.initForms = map[string]*SlotDef{}
 	for i := len(c.inherit) - 1; 0 <= i; i-- {
 		if sc, ok := c.inherit[i].(isStandardClass); ok {
 			for _, sd := range sc.slotDefMap() {
-				for _, ia := range sd.initargs {
-					c.initArgs[string(ia)] = sd
-				}
+				c.addInitArgs(sd)
 				if sd.initform != slip.Unbound {
 					c.initForms[sd.name] = sd
 				}
@@ -400,9 +398,7 @@ func (c *StandardClass) mergeSupers() bool {
 		}
 	}
 	for _, sd := range c.slotDefs {
-		for _, ia := range sd.initargs {
-			c.initArgs[string(ia)] = sd
-		}
+		c.addInitArgs(sd)
 		if sd.initform != slip.Unbound {
 			c.initForms[sd.name] = sd
 		}
@@ -453,7 +449,29 @@ func (c *StandardClass) slotDefMap() map[string]*SlotDef {
 	return c.slotDefs
 }
 
-func (c *StandardClass) initArgDef(name string) *SlotDef {
+// addInitArgs registers the slot definition under each of its initargs. An
+// initarg can be shared by several slots, all of them are initialized by
+// it. A more specific definition of the same slot replaces an inherited one.
+func (c *StandardClass) addInitArgs(sd *SlotDef) {
+	for _, ia := range sd.initargs {
+		key := string(ia)
+		defs := c.initArgs[key]
+		var replaced bool
+		for i, prev := range defs {
+			if prev.name == sd.name {
+				defs[i] = sd
+				replaced = true
+				break
+			}
+		}
+		if !replaced {
+			defs = append(defs, sd)
+		}
+		c.initArgs[key] = defs
+	}
+}
+
+func (c *StandardClass) initArgDefs(name string) []*SlotDef {
 	return c.initArgs[name]
 }
 
